@@ -1465,7 +1465,8 @@ def commit(
         merge_heads = None
         if amend:
             try:
-                head_commit = r[r.head()]
+                amended_head = r.head()
+                head_commit = r[amended_head]
                 assert isinstance(head_commit, Commit)
             except KeyError:
                 raise ValueError("Cannot amend: no existing commit found")
@@ -1536,12 +1537,6 @@ def commit(
                 ref=None,
                 config=commit_config,
             )
-            # Update HEAD to point to the new commit with reflog message
-            try:
-                old_head = r.refs[HEADREF]
-            except KeyError:
-                old_head = None
-
             # Get the actual commit message from the created commit
             commit_obj = r[commit_sha]
             assert isinstance(commit_obj, Commit)
@@ -1554,13 +1549,19 @@ def commit(
 
             # Pass committer explicitly: Repo._write_reflog would otherwise
             # resolve it via get_user_identity(), which reads os.environ.
-            r.refs.set_if_equals(
+            # Update HEAD to point to the new commit, but only if it still is
+            # the commit that was amended: the new commit's parents were taken
+            # from it, so anything committed in between would be lost.
+            if not r.refs.set_if_equals(
                 HEADREF,
-                old_head,
+                amended_head,
                 commit_sha,
                 committer=committer,
                 message=reflog_message,
-            )
+            ):
+                from ..errors import CommitError
+
+                raise CommitError(f"{HEADREF!r} changed during commit")
             return commit_sha
         else:
             # TODO(jelmer): WorkTree.commit() hardcodes the "commit: <message>"
